@@ -118,13 +118,14 @@ async def do_op(sim, request):
         flag, reason = await is_valid_expression(op["expr"], setter)
         contents = [dumps([b.get("requirement_constraints"), b.get("format_constraints")]) for b in handed_out]
         seen_tokens = sim.data_seen
-        if len(set(contents)) != len(contents) and sim.shared_violation is None:
-            # every evaluation of the validity check has data of its own: the same content evaluation result must not
-            # be handed to two of them
+        if len(contents) > 2 and len(set(contents)) == 1 and sim.shared_violation is None:
+            # every evaluation of the validity check has data of its own. (Evaluating one content evaluation result
+            # twice - a fail-fast probe before the fan-out, say - is not forbidden; all of them being the very same
+            # one is.)
             sim.shared_violation = (
                 "isolation:valid",
-                f"{REQ.get()}: is_valid_expression({op['expr']!r}) handed the same content evaluation result to "
-                f"{len(contents) - len(set(contents)) + 1} of its {len(contents)} evaluations",
+                f"{REQ.get()}: is_valid_expression({op['expr']!r}) handed the very same content evaluation result to "
+                f"all of its {len(contents)} evaluations",
             )
         if flag and op.get("has_rc"):
             # every evaluation sees its own data: whatever was set for an evaluation has been seen by that
@@ -267,7 +268,8 @@ def generate(seed, tier="quick"):
     }
     if flavour == "sim":
         world["fc_anonymous"] = rnd.random() < 0.15  # the FC evaluator answers with two shared constant objects
-        world["two_formats"] = rnd.random() < 0.2  # the process serves two (format, version) pairs with own peers
+        # the process serves two or three (format, version) pairs, each with peers of its own
+        world["n_formats"] = rnd.choice([1, 1, 1, 1, 1, 1, 1, 2, 3, 3])
     profile = rnd.choice([p for p in PROFILES if p != "zero"] * 4 + ["zero"])
     package_kinds = {f"{rnd.randint(1, 99)}P": "rc" for _ in range(rnd.choice([0, 1, 2, 2]))}
     n_requests = rnd.choice([2, 3, 4, 5, 6, 8] if big else [1, 1, 2, 2, 3, 4])
@@ -290,7 +292,7 @@ def generate(seed, tier="quick"):
             cer["requirement_constraints"].pop(op["drop"]["rc"], None)
             cer["hints"].pop(op["drop"]["hint"], None)
         requests.append({"rid": rid, "start": rnd.choice([0, 0, 0, 1, 2, 7]), "op": op, "cer": cer,
-                         "peer_set": rnd.randrange(2) if world.get("two_formats") else 0})
+                         "peer_set": rnd.randrange(world.get("n_formats") or 1)})
     for request in requests:
         if rnd.random() < 0.15:
             # a worker task that processes one message after the other: the next one has other data
